@@ -130,6 +130,10 @@ pub struct Plan {
     pub item_init_timeout_ms: u64,
     /// `id_for` of this name fails (IO error).
     pub id_fails_for: Option<String>,
+    /// The n-th (1-based) `id_for` call for this name fails once (IO error): the first call of a
+    /// lane / store item is made when it is initialised, the second - for the items of the
+    /// initialisation phase - when the runtime task starts.
+    pub id_fails_nth: Option<(String, usize)>,
     /// Index of the first step of the closing phase of a degraded-mode script (a fresh remote syncs
     /// every lane, the lanes change once more, everything quiesces).
     pub closing_from: Option<usize>,
@@ -448,6 +452,7 @@ pub fn plan(rng: &mut Rng, focus: Focus, lanes: &[LaneSpec], incarnation: u32, m
         store_mode: StoreMode::Recording,
         item_init_timeout_ms: DEFAULT_ITEM_INIT_TIMEOUT_MS,
         id_fails_for: None,
+        id_fails_nth: None,
         closing_from: None,
     }
 }
@@ -498,6 +503,7 @@ pub fn probe_plan(rng: &mut Rng, focus: Focus, lanes: &[LaneSpec], incarnation: 
         store_mode: StoreMode::Recording,
         item_init_timeout_ms: DEFAULT_ITEM_INIT_TIMEOUT_MS,
         id_fails_for: None,
+        id_fails_nth: None,
         closing_from: None,
     }
 }
@@ -647,7 +653,19 @@ fn add_init_faults(rng: &mut Rng, p: &mut Plan) {
     p.item_init_timeout_ms = t;
     let persistent: Vec<usize> = (0..p.lanes.len()).filter(|l| !p.lanes[*l].transient).collect();
     let mut faulty_lanes = vec![];
-    for _ in 0..rng.range(1, 2) {
+    // One incarnation in four: every item behaves, but the store refuses one `id_for` call (the
+    // first, second or third for the name of one persistent lane or store item), once.
+    let nth_id_fault = rng.chance(1, 4) && !(persistent.is_empty() && p.stores.is_empty());
+    if nth_id_fault {
+        let name = if !p.stores.is_empty() && (persistent.is_empty() || rng.chance(1, 4)) {
+            p.stores[rng.usize_below(p.stores.len())].name.clone()
+        } else {
+            p.lanes[*rng.pick(&persistent)].name.clone()
+        };
+        let n = *rng.pick(&[1usize, 2, 2, 3]);
+        p.id_fails_nth = Some((name, n));
+    }
+    for _ in 0..if nth_id_fault { 0 } else { rng.range(1, 2) } {
         let on_store = !p.stores.is_empty() && (persistent.is_empty() || rng.chance(1, 3));
         if on_store {
             let i = rng.usize_below(p.stores.len());
